@@ -50,9 +50,9 @@ DevSpace == [skipTomb : BOOLEAN, keepRoles : BOOLEAN, regenNoInval : BOOLEAN, lo
 NoLeaf  == [st |-> "none", cls |-> NoCls, gen |-> 0, tb |-> 0]
 NoDoc   == [ch |-> [b \in Branches |-> {}], acc |-> {}, rol |-> {}, seq |-> 0, ver |-> 0]
 NoCache == [cok |-> FALSE, cch |-> {}, rok |-> FALSE, cro |-> {}]
-NoRs    == [on |-> FALSE, regen |-> FALSE, todo |-> {}, changed |-> 0, again |-> FALSE, dirty |-> FALSE, ctr0 |-> 0]
+NoRs    == [on |-> FALSE, regen |-> FALSE, todo |-> {}, touched |-> {}, used |-> 0, again |-> FALSE, dirty |-> FALSE]
 NoObs   == [on |-> FALSE, u |-> "", chans |-> {}, roles |-> {}, vis |-> {}, vrev |-> {}]
-NoScr   == [on |-> FALSE, users |-> [u \in Users |-> NoObs]]
+NoScr   == [on |-> FALSE, users |-> [u \in Users |-> NoObs], okd |-> {}, win |-> [d \in Docs |-> 0], docs |-> [d \in Docs |-> [ch |-> {}, acc |-> {}, rol |-> {}]]]
 NoLast  == [on |-> FALSE, again |-> FALSE, regen |-> FALSE, dirty |-> FALSE, dver |-> {}, dctr |-> 0, dstore |-> {}]
 
 VARIABLES
@@ -68,7 +68,7 @@ VARIABLES
   qruns,   \* ghost: resyncs completed since the function last changed or a document was last written
   last,    \* ghost: what the last completed resync changed
   seen,    \* ghost: per user the last observation since the state last changed
-  st0,     \* ghost: stored documents when the running resync began
+  st0,     \* ghost: stored channels / grants of the documents when the running resync began
   win,     \* impl : branch of the document's current revision, 0 = no document                        (REAL in traces)
   st,      \* impl : per document [ch: per leaf stored channels, acc, rol: the winner's stored grants, seq, ver] (REAL)
   ctr,     \* impl : last allocated sequence                                                           (REAL)
@@ -80,7 +80,10 @@ VARIABLES
 impl  == <<win, st, ctr, cache, rs, obs, scr>>
 ghost == <<fn, adm, leaves, hcls, dem, wr, nw, synced, runs, qruns, last, seen, st0>>
 vars  == <<impl, ghost, hist>>
-view  == <<impl, ghost>>     \* every growing variable is bounded by a guard on nw: the reachable graph is finite without a step bound
+(* every growing variable is bounded by a guard on nw, so the reachable graph is finite without a step bound; the absolute
+   values of sequences / versions / counter are left out of the view (what a run consumed is kept in rs.touched, rs.used) *)
+view  == <<win, [d \in Docs |-> [ch |-> st[d].ch, acc |-> st[d].acc, rol |-> st[d].rol]], cache, rs, obs,
+           fn, adm, leaves, hcls, dem, wr, nw, synced, runs, qruns, last, st0>>     \* seen, scr: see FromScratchAll
 
 -----------------------------------------------------------------------------
 (* the table *)
@@ -102,13 +105,14 @@ RolesOf(u) == adm.ro[u] \cup GRoles(u)
 Eff(u)     == Own(u) \cup UNION {Own(r) : r \in RolesOf(u)}
 
 (* What the implementation computes from its own stored maps *)
-VAcc(p)     == UNION {Of(st[d].acc, p) : d \in Docs}
-VRoles(u)   == UNION {Of(st[d].rol, u) : d \in Docs}
-Compute(p)  == adm.ch[p] \cup VAcc(p) \cup {Public}
-ComputeR(u) == adm.ro[u] \cup VRoles(u)
-Loaded(p)   == [cok |-> TRUE, cch |-> IF cache[p].cok THEN cache[p].cch ELSE Compute(p),
-                rok |-> p \in Users,
-                cro |-> IF p \in Users THEN (IF cache[p].rok THEN cache[p].cro ELSE ComputeR(p)) ELSE {}]
+ComputeS(S, p)  == adm.ch[p] \cup UNION {Of(S[d].acc, p) : d \in Docs} \cup {Public}
+ComputeRS(S, u) == adm.ro[u] \cup UNION {Of(S[d].rol, u) : d \in Docs}
+LoadedS(S, p)   == [cok |-> TRUE, cch |-> IF cache[p].cok THEN cache[p].cch ELSE ComputeS(S, p),
+                    rok |-> p \in Users,
+                    cro |-> IF p \in Users THEN (IF cache[p].rok THEN cache[p].cro ELSE ComputeRS(S, p)) ELSE {}]
+Compute(p)  == ComputeS(st, p)
+ComputeR(u) == ComputeRS(st, u)
+Loaded(p)   == LoadedS(st, p)
 EffStored(u)   == Compute(u) \cup UNION {Compute(r) : r \in ComputeR(u)}
 Inval(c, chg)  == [p \in Princ |-> [cok |-> c[p].cok /\ p \notin chg.c, cch |-> IF p \in chg.c THEN {} ELSE c[p].cch,
                                     rok |-> c[p].rok /\ p \notin chg.r, cro |-> IF p \in chg.r THEN {} ELSE c[p].cro]]
@@ -136,14 +140,16 @@ IdealVis(u)    == {d \in Comp : Out(fn, WCls(d)).ch \cap Eff(u) # {}}
 IdealRev(u)    == {x \in Comp \X Branches : HasLeaf(x[1], x[2]) /\ x[2] \notin dem[x[1]]
                                             /\ Out(fn, leaves[x[1]][x[2]].cls).ch \cap Eff(u) # {}}
 IdealScr       == [on |-> TRUE, users |-> [u \in Users |-> [on |-> TRUE, u |-> u, chans |-> Eff(u), roles |-> RolesOf(u),
-                                                            vis |-> IdealVis(u), vrev |-> IdealRev(u)]]]
+                                                            vis |-> IdealVis(u), vrev |-> IdealRev(u)]],
+                   okd |-> Comp, win |-> [d \in Docs |-> IF d \in Comp THEN win[d] ELSE 0],
+                   docs |-> [d \in Docs |-> IF d \in Comp THEN Out(fn, WCls(d)) ELSE EmptyOut]]
 
 -----------------------------------------------------------------------------
 Init ==
   /\ fn \in {FnTab[f] : f \in FnNames} /\ adm \in AdminSet
   /\ leaves = [d \in Docs |-> [b \in Branches |-> NoLeaf]] /\ hcls = [d \in Docs |-> {}] /\ dem = [d \in Docs |-> {}]
   /\ wr = [d \in Docs |-> FALSE] /\ nw = [w |-> 0, f |-> 0, r |-> 0] /\ synced = TRUE /\ runs = 0 /\ qruns = 0 /\ last = NoLast
-  /\ seen = [u \in Users |-> NoObs] /\ st0 = [d \in Docs |-> NoDoc]
+  /\ seen = [u \in Users |-> NoObs] /\ st0 = [d \in Docs |-> [ch |-> NoDoc.ch, acc |-> {}, rol |-> {}]]
   /\ win = [d \in Docs |-> 0] /\ st = [d \in Docs |-> NoDoc] /\ ctr = 0 /\ cache = FreshCache
   /\ rs = NoRs /\ obs = NoObs /\ scr = NoScr
   /\ hist = <<>>
@@ -168,7 +174,7 @@ ImplDoc(d, B, b) ==
        /\ st' = [st EXCEPT ![d] = [ch |-> nch, acc |-> nac, rol |-> nro, seq |-> ctr + 1, ver |-> @.ver + 1]]
        /\ ctr' = ctr + 1
        /\ cache' = Inval(cache, chg)
-       /\ rs' = IF rs.on THEN [rs EXCEPT !.dirty = TRUE] ELSE rs
+       /\ rs' = IF rs.on THEN [rs EXCEPT !.dirty = TRUE, !.used = @ + 1] ELSE rs
 GhostDoc(d, B, b, cls) ==
   /\ leaves' = [leaves EXCEPT ![d] = B]
   /\ hcls' = [hcls EXCEPT ![d] = @ \cup {cls}]
@@ -182,11 +188,11 @@ CanWrite(d, b) ==
   \/ B[b].st = "live"
 
 Write(d, b, cls, del) ==
-  /\ CanWrite(d, b) /\ (del => leaves[d][b].st = "live") /\ (cls = NoCls => del) /\ Accepted(fn, cls) /\ nw.w < MaxWrites
+  /\ CanWrite(d, b) /\ (del => leaves[d][b].st = "live") /\ (cls = NoCls => del) /\ Accepted(fn, cls) /\ nw.w < MaxWrites /\ (rs.on \/ nw.r < MaxRuns)
   /\ ImplDoc(d, NewBWrite(d, b, cls, del), b) /\ GhostDoc(d, NewBWrite(d, b, cls, del), b, cls)
   /\ Step([a |-> "Write", d |-> d, b |-> b, cls |-> cls, del |-> del])
 Conflict(d, cls, hi) ==
-  /\ leaves[d][1].st # "none" /\ leaves[d][2].st = "none" /\ cls # NoCls /\ Accepted(fn, cls) /\ nw.w < MaxWrites
+  /\ leaves[d][1].st # "none" /\ leaves[d][2].st = "none" /\ cls # NoCls /\ Accepted(fn, cls) /\ nw.w < MaxWrites /\ (rs.on \/ nw.r < MaxRuns)
   /\ ImplDoc(d, NewBConflict(d, cls, hi), 2) /\ GhostDoc(d, NewBConflict(d, cls, hi), 2, cls)
   /\ Step([a |-> "Conflict", d |-> d, cls |-> cls, hi |-> hi])
 
@@ -198,7 +204,7 @@ GhostSetFn(t) ==
   /\ qruns' = (IF t = fn THEN qruns ELSE 0)
   /\ last' = NoLast /\ nw' = [nw EXCEPT !.f = @ + 1] /\ UNCHANGED <<adm, leaves, hcls, dem, wr, st0>> /\ Unseen
 SetFn(f) ==
-  /\ ~rs.on /\ nw.f < MaxSetFn
+  /\ ~rs.on /\ nw.f < MaxSetFn /\ nw.r < MaxRuns
   /\ UNCHANGED <<win, st, ctr, cache, rs>> /\ GhostSetFn(FnTab[f])
   /\ Step([a |-> "SetFn", f |-> f])
 
@@ -221,9 +227,9 @@ Resynced(d, regen, dv) ==
 
 ResyncStart(regen) ==
   /\ ~rs.on /\ nw.r < MaxRuns
-  /\ rs' = [on |-> TRUE, regen |-> regen, todo |-> {d \in Docs : Exists(d)}, changed |-> 0, again |-> qruns >= 1,
-            dirty |-> FALSE, ctr0 |-> ctr]
-  /\ st0' = st /\ wr' = [d \in Docs |-> FALSE] /\ last' = NoLast /\ nw' = [nw EXCEPT !.r = @ + 1]
+  /\ rs' = [on |-> TRUE, regen |-> regen, todo |-> {d \in Docs : Exists(d)}, touched |-> {}, used |-> 0,
+            again |-> qruns >= 1, dirty |-> FALSE]
+  /\ st0' = [d \in Docs |-> Stored(st[d])] /\ wr' = [d \in Docs |-> FALSE] /\ last' = NoLast /\ nw' = [nw EXCEPT !.r = @ + 1]
   /\ UNCHANGED <<win, st, ctr, cache, fn, adm, leaves, hcls, dem, synced, runs, qruns>> /\ Unseen
   /\ Step([a |-> "ResyncStart", regen |-> regen])
 
@@ -233,7 +239,8 @@ ImplResyncDoc(d, dv) ==
                               seq |-> IF r.rw /\ rs.regen THEN ctr + 1 ELSE @.seq,
                               ver |-> IF r.rw THEN @.ver + 1 ELSE @.ver]]
   /\ ctr' = IF r.rw /\ rs.regen THEN ctr + 1 ELSE ctr
-  /\ rs' = [rs EXCEPT !.todo = @ \ {d}, !.changed = IF r.rw THEN @ + 1 ELSE @]
+  /\ rs' = [rs EXCEPT !.todo = @ \ {d}, !.touched = IF r.rw THEN @ \cup {d} ELSE @,
+                       !.used = IF r.rw /\ rs.regen THEN @ + 1 ELSE @]
   /\ UNCHANGED <<win, cache>>
 ResyncDoc(d) ==
   /\ rs.on /\ d \in rs.todo
@@ -242,23 +249,22 @@ ResyncDoc(d) ==
   /\ Step([a |-> "ResyncDoc", d |-> d])
 
 (* principals after the documents: cache' and ctr' *)
-ImplPrincipals(regen, changed, dv) ==
+ImplPrincipals(S, c, regen, changed, dv) ==            \* S, c: stored documents and counter after the documents
   IF regen
-  THEN /\ ctr' = ctr + Cardinality(Princ)             \* every principal gets a new sequence (it is loaded for that)
-       /\ cache' = IF dv.regenNoInval \/ changed = 0 THEN [p \in Princ |-> Loaded(p)] ELSE InvalAll
-  ELSE /\ ctr' = ctr
+  THEN /\ ctr' = c + Cardinality(Princ)               \* every principal gets a new sequence (it is loaded for that)
+       /\ cache' = IF dv.regenNoInval \/ changed = 0 THEN [p \in Princ |-> LoadedS(S, p)] ELSE InvalAll
+  ELSE /\ ctr' = c
        /\ cache' = IF changed > 0 THEN InvalAll ELSE cache
-GhostDone(again, regen, c0) ==
+GhostDone(again, dirty, regen, dver, dctr, base) ==     \* base: stored channels / grants when the run began
   /\ synced' = TRUE /\ runs' = runs + 1
-  /\ qruns' = (IF again.dirty THEN 0 ELSE qruns + 1)
-  /\ last' = [on |-> TRUE, again |-> again.again /\ ~again.dirty, regen |-> regen, dirty |-> again.dirty,
-              dver |-> {d \in Docs : st'[d].ver # st0[d].ver}, dctr |-> ctr' - c0,
-              dstore |-> {d \in Docs : Stored(st'[d]) # Stored(st0[d])}]
-  /\ UNCHANGED <<fn, adm, leaves, hcls, dem, wr, nw, st0>> /\ Unseen
+  /\ qruns' = (IF dirty THEN 0 ELSE qruns + 1)
+  /\ last' = [on |-> TRUE, again |-> again /\ ~dirty, regen |-> regen, dirty |-> dirty, dver |-> dver, dctr |-> dctr,
+              dstore |-> {d \in Docs : Stored(st'[d]) # base[d]}]
+  /\ UNCHANGED <<fn, adm, leaves, hcls, dem>> /\ Unseen
 ResyncDone ==
   /\ rs.on /\ rs.todo = {}
-  /\ ImplPrincipals(rs.regen, rs.changed, Dev) /\ rs' = NoRs /\ UNCHANGED <<win, st>>
-  /\ GhostDone(rs, rs.regen, rs.ctr0)
+  /\ ImplPrincipals(st, ctr, rs.regen, Cardinality(rs.touched), Dev) /\ rs' = NoRs /\ UNCHANGED <<win, st>>
+  /\ GhostDone(rs.again, rs.dirty, rs.regen, rs.touched, rs.used + (ctr' - ctr), st0) /\ UNCHANGED <<wr, nw, st0>>
   /\ Step([a |-> "ResyncDone"])
 
 (* ---- observations (never while a resync is running: C03's recorded finding is not re-reported) ---- *)
@@ -316,11 +322,22 @@ ScrVisible(o) == [vis |-> o.vis, vrev |-> {x \in o.vrev : x[2] \notin dem[x[1]]}
 FromScratchFor(u) == seen[u].on => Visible(seen[u]) = ScrVisible(scr.users[u])
 FromScratch == (scr.on /\ Settled /\ ~NonCompGrants) => \A u \in Users : FromScratchFor(u)
 
+(* The same two statements over what a request WOULD return now, for every user at once (exhaustive model only: there the
+   observations seen / scr are left out of the view, so the observation-based forms are evaluated on representatives) *)
+WouldSee(u) == LET c2 == ReqCache(u)  cs == ReqChans(c2, u)
+               IN [on |-> TRUE, u |-> u, chans |-> cs, roles |-> c2[u].cro, vis |-> VisDocs(cs), vrev |-> VisRevs(cs)]
+PrincipalsFreshAll == Settled => \A u \in Users : LET o == WouldSee(u) IN o.chans = Eff(u) /\ o.roles = RolesOf(u)
+FromScratchAll == (Settled /\ ~NonCompGrants) =>
+                    LET is == IdealScr IN \A u \in Users : Visible(WouldSee(u)) = ScrVisible(is.users[u])
+
 Idempotent ==
   (last.on /\ last.again) => /\ last.dstore = {}
                              /\ (~last.regen => last.dver = {} /\ last.dctr = 0)
 
 (* auxiliary / design invariants *)
+ScratchSound ==   \* the from-scratch database holds the comparable documents, their current revisions evaluated by fn
+  scr.on => /\ scr.okd = Comp
+            /\ \A d \in Comp : scr.win[d] = win[d] /\ scr.docs[d] = Out(fn, WCls(d))
 CacheSound ==     \* whatever is marked valid is right, once the function and the documents agree
   (Settled /\ Stale = {}) => \A p \in Princ : /\ (cache[p].cok => cache[p].cch = Own(p))
                                              /\ (p \in Users /\ cache[p].rok => cache[p].cro = RolesOf(p))
